@@ -196,7 +196,7 @@ func genSearchScenario(rng *rand.Rand, profile string, thorough bool) *SearchSce
 			}
 			return sc
 		}
-		sc.TTBytes = pick(rng, []int{32768, 65536, 1 << 20, 1 << 20, 4 << 20})
+		sc.TTBytes = pick(rng, []int{32768, 65536, 1 << 20, 1 << 20, 4 << 20, 1003 * 32, 2047 * 32, 4001 * 32, 32771 * 32})
 		sc.Twins = 1 + rng.IntN(2)
 		sc.Noise = rng.IntN(2) == 0
 		n := 3 + rng.IntN(8)
@@ -236,12 +236,13 @@ func genSearchScenario(rng *rand.Rand, profile string, thorough bool) *SearchSce
 				st.TwinSched = append(st.TwinSched, Sched{Quanta: []Quantum{{Polls: 1 + rng.IntN(400), CostUS: int64(rng.IntN(5000))}}})
 			}
 			st.Req.Debug = rng.IntN(6) == 0
+			st.TwinDebugFlip = rng.IntN(6) == 0
 			st.Req.NoCounters = noCounters
 			if rng.IntN(12) == 0 {
 				st.Clear = true
 			}
 			if rng.IntN(15) == 0 {
-				st.Resize = pick(rng, []int{32768, 65536, 1 << 20, 2 << 20, 4 << 20})
+				st.Resize = pick(rng, []int{32768, 65536, 1 << 20, 2 << 20, 4 << 20, 1001 * 32, 5003 * 32})
 				st.Clear = rng.IntN(2) == 0
 				st.ClearFirst = rng.IntN(2) == 0
 			}
